@@ -10,9 +10,16 @@ EXTENDS Naturals, Sequences, FiniteSets, TLC, Json
 CONSTANTS Emit,
           KeepTimeAppliesToRoot,   \* deviation: with -k the root takes the time stamp of the scanned directory
           ForcedOwnerSkipsRoot,    \* deviation (pinned tree before fix 742dec9): --set-uid / --all-root do not reach the root inode
+          SelinuxBeforeMap,        \* deviation: the SELinux label is added before the map file is applied, so a security.selinux pair of the map file wins
           MapFileGetsHostPath      \* deviation: with -x the --xattr-file is looked up by the host path of the entry, so no line of it ever matches
 
-Opts == [k : BOOLEAN, own : {"none", "allroot", "u3"}, g4 : BOOLEAN, H : BOOLEAN, x : BOOLEAN, A : BOOLEAN, o : BOOLEAN, dm : {"none", "99"}, du : {"none", "55"}]
+Opts == [k : BOOLEAN, own : {"none", "allroot", "u3"}, g4 : BOOLEAN, H : BOOLEAN, x : BOOLEAN, A : BOOLEAN, o : BOOLEAN, dm : {"none", "99"}, du : {"none", "55"}, s : BOOLEAN]
+(* s: --selinux with a context file that labels /a a_t and /d with everything below d_t; whatever no line matches gets the fall back label     *)
+(* "unl" (system_u:object_r:unlabeled_t:s0).  The map file (A) also carries security.selinux="frommap" for /a: the label is added LAST and       *)
+(* replaces it (apply_xattr.c: disk scan, map file, SELinux; same key = replace).                                                                *)
+Ctx(m) == CASE m = "a" -> "a_t" [] m \in {"d", "b"} -> "d_t" [] OTHER -> "unl"
+Sel(o, m) == LET map == o.A /\ m = "a" /\ ~MapFileGetsHostPath IN
+             IF o.s THEN (IF SelinuxBeforeMap /\ map THEN "map" ELSE Ctx(m)) ELSE IF map THEN "map" ELSE "none"
 (* A: an --xattr-file that gives /a the pair user.map and /d the pair user.dirmap (paths of the IMAGE); -x reads user.t of a from disk *)
 Src == [a |-> [kind |-> "file", uid |-> 7, gid |-> 8, t |-> 5000, xa |-> TRUE],
         d |-> [kind |-> "dir", uid |-> 11, gid |-> 12, t |-> 5000, xa |-> FALSE],
@@ -25,11 +32,12 @@ Node(o, n) == [kind |-> Src[n].kind, uid |-> Uid(o, Src[n].uid), gid |-> Gid(o, 
                mtime |-> (IF o.k THEN Src[n].t ELSE DefT(o)),
                xattr |-> LET own(m) == (IF o.x /\ Src[m].xa THEN {"t"} ELSE {}) \cup
                                       (IF o.A /\ ~MapFileGetsHostPath THEN (IF m = "a" THEN {"map"} ELSE IF m = "d" THEN {"dirmap"} ELSE {}) ELSE {})
-                         IN IF n = "b" /\ ~o.H THEN own("a") ELSE own(n)]              \* d/b is a's inode unless -H
+                         IN IF n = "b" /\ ~o.H THEN own("a") ELSE own(n),              \* d/b is a's inode unless -H
+               sel |-> IF n = "b" /\ ~o.H THEN Sel(o, "a") ELSE Sel(o, n)]
 Meaning(o) ==
   [root |-> [uid |-> (IF ForcedOwnerSkipsRoot THEN (IF o.du = "55" THEN 55 ELSE 0) ELSE Uid(o, IF o.du = "55" THEN 55 ELSE 0)),
              gid |-> (IF ForcedOwnerSkipsRoot THEN 0 ELSE Gid(o, 0)),
-             mtime |-> (IF KeepTimeAppliesToRoot /\ o.k THEN 5000 ELSE DefT(o))],
+             mtime |-> (IF KeepTimeAppliesToRoot /\ o.k THEN 5000 ELSE DefT(o)), sel |-> Sel(o, "root")],
    a |-> Node(o, "a"), d |-> Node(o, "d"), b |-> Node(o, "b"), l |-> Node(o, "l"),
    linked |-> ~o.H]                                 \* a and d/b share one inode unless -H
 
@@ -41,5 +49,6 @@ Spec == Init /\ [][Next]_o
 ForcedOwnerEverywhere == (o.own = "u3") => \A n \in {"root", "a", "d", "b", "l"} : Meaning(o)[n].uid = 3
 RootFromDefaults == Meaning(o).root.mtime = DefT(o)
 MapFileApplies == o.A => ("map" \in Meaning(o).a.xattr /\ "dirmap" \in Meaning(o).d.xattr)
+LabelEverywhere == o.s => \A n \in {"root", "a", "d", "b", "l"} : Meaning(o)[n].sel \notin {"none", "map"}
 EmitOK == Emit => PrintT(<<"RESULT", ToJson([o |-> o, m |-> Meaning(o)])>>)
 =============================================================================
